@@ -192,6 +192,8 @@ def strip_bonding_descriptors(fragment_string):
                                                                      prev_node,
                                                                      rings)
             smile += part_str
+            # a ring bond symbol (C=1) is not the order of a later descriptor
+            current_order = None
         elif token in '] H . - = # $ : + -':
             smile += token
         # deal with ez isomers
